@@ -141,8 +141,8 @@ WITNESSES = {
         'tr3 0.25 0 0\n', []),
     'fill_array_surplus_2_void': (
         't\n1 0 -1 2 u=1 lat=1 fill=0:1 0:0 0:0 0 0 40 40 imp:n=1\n'
-        '2 0 -5 fill=1 imp:n=1\n4 0 5 imp:n=0\n\n'
-        '1 px 1\n2 px -1\n5 so 10\n\n', []),
+        '2 0 -5 6 fill=1 imp:n=1\n3 0 -6 imp:n=1\n4 0 5 imp:n=0\n\n'
+        '1 px 1\n2 px -1\n5 so 10\n6 so 0.5\n\n', []),
     'lattice_trailing_range_unchecked': (
         't\n1 0 -1 2 u=1 lat=1 fill=0:0 0:0 0:1 2 2 imp:n=1\n'
         '2 0 -5 fill=1 imp:n=1\n3 0 -6 u=2 imp:n=1\n4 0 5 imp:n=0\n\n'
@@ -900,7 +900,7 @@ def replay(path):
         print(G.render(inp['deck']))
         print('arguments:', G.cli_args(inp['deck']))
         print('implementation:', out, conv)
-        model, _ = common.coq_eval(HEADER, 'validate FS ' + G.cdeck(inp['deck']))
+        model, _ = common.coq_eval(HEADER + 'Import ListNotations.\n', 'validate FS ' + G.cdeck(inp['deck']))
         print('model:', model)
     elif 'deck_text' in inp:
         conv = impl.convert(inp['deck_text'], inp.get('args', []))
@@ -909,22 +909,22 @@ def replay(path):
     elif 'surface' in inp:
         mn, params = inp['surface']
         print('implementation:', impl_surface(mn, params))
-        model, _ = common.coq_eval(HEADER, f'surface_check FS {cstr(mn)} '
+        model, _ = common.coq_eval(HEADER + 'Import ListNotations.\n', f'surface_check FS {cstr(mn)} '
                                    + clist(cfloat(v) for v in params))
         print('model:', model)
     elif 'latopt' in inp:
         print('implementation:', impl_latopt(inp['latopt']))
-        model, _ = common.coq_eval(HEADER, 'parse_lattice '
+        model, _ = common.coq_eval(HEADER + 'Import ListNotations.\n', 'parse_lattice '
                                    + clist(cstr(o) for o in inp['latopt']))
         print('model:', model)
     elif 'ranges' in inp:
         print('implementation:', impl_ranges(inp['ranges']))
-        model, _ = common.coq_eval(HEADER, 'parse_ranges '
+        model, _ = common.coq_eval(HEADER + 'Import ListNotations.\n', 'parse_ranges '
                                    + clist(cstr(o) for o in inp['ranges']))
         print('model:', model)
     elif 'normtr' in inp:
         print('implementation:', impl_normtr(inp['normtr']))
-        model, _ = common.coq_eval(HEADER, 'norm_tr_len FS '
+        model, _ = common.coq_eval(HEADER + 'Import ListNotations.\n', 'norm_tr_len FS '
                                    + clist(cfloat(v) for v in inp['normtr']))
         print('model:', model)
     elif 'cellopts' in inp:
@@ -935,7 +935,7 @@ def replay(path):
                 + ' ' + clist(f'(Some {cfloat(v)})' for v in imps)
                 + f' {cnat(rank)} {copt(lat, G.cbounds)} '
                 + clist(G.ctok(t) for t in G.opt_tokens(option)))
-        model, _ = common.coq_eval(HEADER, term)
+        model, _ = common.coq_eval(HEADER + 'Import ListNotations.\n', term)
         print('model:', model)
     elif 'impcards' in inp:
         print('implementation:', impl_impcards(inp['impcards']))
